@@ -101,6 +101,10 @@ pub struct Cmd {
     pub fplan: Vec<IoStep>,
     /// Some => engine E2
     pub e2: Option<E2Params>,
+    /// with `e2` params: run the REAL binary under the preload shim's thread scheduler
+    /// (engine E3) instead of the shuttle executor
+    #[serde(default)]
+    pub e3: bool,
 }
 
 #[derive(Clone, Debug, Serialize, Deserialize, PartialEq, Eq)]
@@ -300,6 +304,8 @@ fn parse_shim_log(text: &str) -> (Vec<EntEvent>, Vec<IoEvent>) {
         match f.first().copied() {
             Some("E") if f.len() >= 6 => {
                 let ok = f[4] == "ok";
+                let step: u32 = f.iter().rev().find_map(|t| t.strip_prefix('@')).and_then(|t| t.parse().ok()).unwrap_or(0);
+                let f: Vec<&str> = f.iter().copied().filter(|t| !t.starts_with('@')).collect();
                 ent.push(EntEvent {
                     seq: f[1].parse().unwrap_or(0),
                     task: f[2].parse().unwrap_or(0),
@@ -308,7 +314,7 @@ fn parse_shim_log(text: &str) -> (Vec<EntEvent>, Vec<IoEvent>) {
                     errno: if ok { 0 } else { f[5].parse().unwrap_or(0) },
                     bytes: if ok { f[5].to_string() } else { String::new() },
                     src: if ok { "plan".into() } else { f.get(6).unwrap_or(&"plan").to_string() },
-                    step: 0,
+                    step,
                 });
             }
             // a zero-length successful request logs an empty hex field
@@ -369,7 +375,8 @@ pub fn exec(ctx: &Ctx, dir: &Path, cmd: &Cmd) -> Result<Outcome, HarnessError> {
     let mut c;
     let hist_path = dir.join(".history.json");
     let log_path = dir.join(".simos.log");
-    if let Some(e2) = &cmd.e2 {
+    let e2_exec = cmd.e2.is_some() && !cmd.e3;
+    if let (Some(e2), true) = (&cmd.e2, e2_exec) {
         let sc = E2Scenario {
             argv: cmd.argv.clone(),
             entropy: cmd.entropy.clone(),
@@ -402,6 +409,19 @@ pub fn exec(ctx: &Ctx, dir: &Path, cmd: &Cmd) -> Result<Outcome, HarnessError> {
         }
         for s in &cmd.fplan {
             plan.push_str(&s.plan_line('F'));
+        }
+        if let (Some(e2), true) = (&cmd.e2, cmd.e3) {
+            // engine E3: the shim schedules the real threads. PCT needs task priorities the
+            // shim does not keep: it runs as the random walk with the same seed.
+            let policy = match e2.sched.policy.as_str() {
+                "sticky" => "sticky",
+                "trace" => "trace",
+                _ => "random",
+            };
+            plan.push_str(&format!("S {policy} {} {} {} {}\n", e2.sched.seed, e2.sched.param, e2.max_steps, e2.generous_requests));
+            for c in &e2.sched.trace {
+                plan.push_str(&format!("C {c}\n"));
+            }
         }
         let plan_path = dir.join(".plan");
         std::fs::write(&plan_path, plan).map_err(|e| he(format!("write plan: {e}")))?;
@@ -460,7 +480,7 @@ pub fn exec(ctx: &Ctx, dir: &Path, cmd: &Cmd) -> Result<Outcome, HarnessError> {
 
     let stdout = read_file_lossy(&stdout_path, 1 << 22);
     let stderr = String::from_utf8_lossy(&read_file_lossy(&stderr_path, 4096)).into_owned();
-    let (ent, io, e2) = if cmd.e2.is_some() {
+    let (ent, io, e2) = if e2_exec {
         match std::fs::read(&hist_path).ok().and_then(|b| serde_json::from_slice::<E2History>(&b).ok()) {
             Some(h) => {
                 // the executor encodes the way the run ended in its exit status;
@@ -478,6 +498,9 @@ pub fn exec(ctx: &Ctx, dir: &Path, cmd: &Cmd) -> Result<Outcome, HarnessError> {
                 (h.entropy.clone(), Vec::new(), Some(h))
             }
             None => {
+                if status == Status::Exit(74) {
+                    return Err(he("SEAM-ESCAPE: a real OS thread reached the entropy device (threads created outside the instrumented module)".into()));
+                }
                 if status == Status::Timeout {
                     (Vec::new(), Vec::new(), None)
                 } else if let Status::Signal(_) = status {
@@ -493,11 +516,69 @@ pub fn exec(ctx: &Ctx, dir: &Path, cmd: &Cmd) -> Result<Outcome, HarnessError> {
         }
     } else {
         let log = String::from_utf8_lossy(&read_file_lossy(&log_path, 1 << 22)).into_owned();
-        let (ent, io) = parse_shim_log(&log);
+        let (mut ent, io) = parse_shim_log(&log);
         if status == Status::Exit(96) && ent.is_empty() && io.is_empty() {
             return Err(he("shim could not open its plan".into()));
         }
-        (ent, io, None)
+        let mut hist = None;
+        if cmd.e3 && cmd.e2.is_some() {
+            for e in ent.iter_mut() {
+                if e.ok && (e.seq as usize) >= cmd.entropy.len() {
+                    e.src = "tail".into();
+                }
+            }
+            let mut h = e3_history(&log, &ent, &stderr);
+            match (h.end.as_str(), &status) {
+                ("deadlock", Status::Exit(71)) | ("budget", Status::Exit(72)) | ("liveness", Status::Exit(73)) => {}
+                ("exit", Status::Exit(c)) => h.exit = Some(*c),
+                (_, Status::Timeout) | (_, Status::Signal(_)) => h.end = "killed".into(),
+                (e, st) => return Err(he(format!("E3 log says the run ended with '{e}' but the process status is {st:?}"))),
+            }
+            hist = Some(h);
+        }
+        (ent, io, hist)
     };
     Ok(Outcome { status, stdout, stderr, ent, io, e2, wall_us })
+}
+
+/// Engine E3: reconstruct the run's history from the shim's scheduler log.
+fn e3_history(log: &str, ent: &[EntEvent], stderr: &str) -> E2History {
+    let mut h = E2History { end: "exit".into(), tasks: 1, entropy: ent.to_vec(), ..E2History::default() };
+    let mut ended = false;
+    for line in log.lines() {
+        let f: Vec<&str> = line.split(' ').collect();
+        match f.first().copied() {
+            Some("C") if f.len() >= 2 => h.choices.push(f[1].parse().unwrap_or(0)),
+            Some("B") => h.tasks += 1,
+            Some("F") if f.len() >= 3 => {
+                h.finished_before_exit.push(f[1].parse().unwrap_or(0));
+                h.finished_steps.push(f[2].parse().unwrap_or(0));
+            }
+            Some("D") => h.detail = format!("no runnable thread; {}", &line[2..]),
+            Some("X") if f.len() >= 4 && !ended => {
+                h.end = f[1].to_string();
+                h.steps = f[2].parse().unwrap_or(0);
+                h.sched_hash = f[3].to_string();
+                ended = true;
+            }
+            _ => {}
+        }
+    }
+    h.unfinished_at_end = h.tasks.saturating_sub(h.finished_before_exit.len() as u32 + 1);
+    h.preemptions = h.choices.windows(2).filter(|w| w[0] != w[1]).count() as u32;
+    h.generous_at_step = ent.iter().find(|e| e.src == "tail").map(|e| e.step);
+    // real threads report their panics on stderr
+    let mut rest = stderr;
+    while let Some(i) = rest.find("panicked at ") {
+        let tail = &rest[i + "panicked at ".len()..];
+        let (loc, after) = tail.split_once('\n').unwrap_or((tail, ""));
+        let msg = after.lines().next().unwrap_or("").to_string();
+        let thread_main = rest[..i].rsplit('\n').next().map(|l| l.contains("'main'")).unwrap_or(false);
+        h.panics.push(PanicEvent { task: if thread_main { 0 } else { u32::MAX }, msg, loc: loc.trim_end_matches(':').to_string(), step: 0 });
+        if !thread_main {
+            h.died += 1;
+        }
+        rest = after;
+    }
+    h
 }
